@@ -31,8 +31,15 @@ try:
         meta["re_evaluated_at_repo_commit"] = head
         meta["detected"] = any(v["exit"] == 1 for v in res.values())
         meta["detected_with_failing_input"] = any(v["exit"] == 1 and any("no-failing-input-found" not in l for l in v["violation_lines"]) for v in res.values())
+        if not meta["demo_now"]["fails_with"]:
+            meta["status_now"] = "benign on %s: the change's own demo no longer fails (a later fix: commit removed the mechanism it relied on)" % head
         json.dump(meta, open(os.path.join(d, "meta.json"), "w"), indent=1)
-        print(n, "demo", meta["demo_now"], {c: v["exit"] for c, v in res.items()}, "detected" if meta["detected"] else "MISSED")
+        if not meta["demo_now"]["fails_with"]:
+            meta["status_now"] = "benign on %s: the change's own demo no longer fails (a later fix: commit removed the mechanism it relied on)" % head
+        else:
+            meta.pop("status_now", None)
+        print(n, "demo", meta["demo_now"], {c: v["exit"] for c, v in res.items()},
+              "detected" if meta["detected"] else ("BENIGN-NOW" if not meta["demo_now"]["fails_with"] else "MISSED"))
         sys.stdout.flush()
 finally:
     subprocess.run("git -C /repo worktree remove --force %s" % WT, shell=True)
